@@ -207,6 +207,8 @@ def feature_steps(ctx, block):
         exact_col = torch.tensor([hw.is_exact(s_) for s_, k in zip(specs, widths) for _ in range(k)])
 
         def _eqc(a, b):   # bitwise on exact columns, within tolerance on the others
+            if tuple(a.shape) != tuple(b.shape) or a.shape[-1] != exact_col.numel():
+                return torch.zeros(1, dtype=torch.bool)   # misshaped (reported by the shape classes): never "equal"
             return torch.where(exact_col, _eq(a, b), _close(a, b, False))
         ctx.tick(N * T, nontrivial=N * T)
         if tuple(full.shape) != tuple(exp_full.shape):
